@@ -19,9 +19,35 @@
    bound = Unbounded | Included k | Excluded k: all nine combinations, empty and inverted ranges
    included (nothing is assumed about lo and hi).
    The models are those of the repaired code (F1 fixed in db4381b; cursor combinators as repaired
-   by the C11 fixes). *)
+   by the C11 fixes).
+
+   WHAT IS NOT PROVED HERE (stated, not hidden):
+   (a) ONE reachable snapshot is outside every theorem of this file.  The memtable thread ingests
+       a flushed sst into the tree BEFORE it clears the immutable memtable (lsmtk/src/kvs/mod.rs,
+       memtable_thread: `self.tree._ingest(..)`, then `state.imm = None` under the lock).  A
+       range_scan snapshot taken in that window holds the immutable memtable and a version that
+       already contains its sst, so every (key, timestamp) pair of the immutable memtable is under
+       the store's MergingCursor TWICE.  C11's merging theorem (and hence C03_scan_expr_wf) needs
+       pairwise distinct pairs, and a PruningCursor over a stream with repeated pairs is not the
+       reference cursor over C11's prune_spec of that stream (the spec keeps both copies, the
+       cursor skips repeats by key), so covering this class needs duplicate-tolerant versions of
+       the C11 merging and pruning theorems, which do not exist.  Model.run_scan_dup is that
+       snapshot in the model; ex_dup_snapshot below evaluates it on a concrete store; the
+       correspondence run forces the window through lsmtk's gate `f_ingested` (about a thousand
+       scans per quick run: real cursor = extracted run_scan_dup = live keys, no disagreement
+       seen), and an exhaustive run of the model on this class found none either.  No defect is
+       known; the class is UNPROVED.
+   (b) A cursor that stays alive while the store changes under it (later writes into the very
+       memtable it iterates, rollovers, flush completions, new versions, file removal) is not the
+       subject of this file: the theorems here are about the cursor of a FIXED snapshot, at the
+       snapshot's read timestamp (C03_scan_at_any_timestamp covers a memtable that already holds
+       newer entries when the cursor is built).  That the cursor keeps returning its snapshot
+       while the memtable grows and the tree changes is property C07's theorem
+       Snap.Props_C07.C07_cursor_snapshot_stable (and C07_cursor_keeps_scan_open_contents); the
+       correspondence run of C03 exercises it (`scanw`: cursors used across later writes). *)
 From Coq Require Import NArith ZArith List Bool.
-From Blue Require Import Lsm.Model Lsm.LoadProofs Lsm.Ordered Lsm.History.
+From Blue Require Import Lsm.Model Lsm.LoadProofs Lsm.Ordered Lsm.History Lsm.ModelConcurrent Lsm.ConcInv
+  Lsm.ConcurrentProofs.
 From Blue Require Import Cursor.Iface Cursor.Ref Cursor.Bounds Cursor.Spec Cursor.Compose Cursor.Proofs_Compose.
 From Blue Require Import Scan.Skip Scan.Model Scan.Proofs_Bridge Scan.Proofs_Count Scan.Proofs_Wf Scan.Proofs_Skip
   Scan.Proofs_Scan Scan.Proofs_Extra.
@@ -42,6 +68,15 @@ Theorem C03_scan_after_history : forall n ops lo hi prog,
   all_accepted (init_at n) ops = true ->
   run_scan (History.run (init_at n) ops) lo hi prog = run_live (History.run (init_at n) ops) lo hi prog.
 Proof. exact scan_after_history. Qed.
+
+(* ... and after every accepted CONCURRENT history (several compactions selected, running and
+   applied in any order while writes and flushes go on: Lsm/ModelConcurrent.v) *)
+Theorem C03_scan_after_concurrent_history : forall n ops lo hi prog,
+  caccepted (cinit_at n) ops = true ->
+  run_scan (st (crun (cinit_at n) ops)) lo hi prog = run_live (st (crun (cinit_at n) ops)) lo hi prog.
+Proof.
+  intros n ops lo hi prog H. apply scan_correct. exact (ci_inv _ (concurrent_invariant_reachable n ops H)).
+Qed.
 
 (* what the specification list holds: x is listed iff its key is within the bounds, a point read
    of its key at the same moment returns exactly x, and x is not a tombstone.  (So: scan and point
@@ -221,3 +256,13 @@ Example f1_old_shape_lists_deleted_key :
   live_spec f1_store Unbounded Unbounded = [] /\
   map fst (run_scan f1_store Unbounded Unbounded [ONext; ONext]) = [None; None; None].
 Proof. vm_compute. repeat split; reflexivity. Qed.
+
+(* ---- the snapshot outside the theorems (see (a) in the header), evaluated: while ex_store2's
+   memtable {4 deleted @10, 3 put @9} is being flushed and its sst is already in the tree, every
+   pair of the immutable memtable is merged twice; the model still lists the live keys once *)
+Example ex_dup_snapshot :
+  map fst (run_scan_dup ex_store2 Unbounded Unbounded [ONext; ONext; ONext; OPrev; OPrev; OPrev; OSeek [3]%N; OPrev; OLast; OPrev; ONext]) =
+    [None; Some e3; Some e5; None; Some e5; Some e3; None; Some e3; None; None; Some e5; None] /\
+  run_scan_dup ex_store2 (Included [3]%N) (Excluded [5]%N) [ONext; ONext; OPrev; OPrev] =
+    run_live ex_store2 (Included [3]%N) (Excluded [5]%N) [ONext; ONext; OPrev; OPrev].
+Proof. vm_compute. split; reflexivity. Qed.
